@@ -1,3 +1,4 @@
+from common import guarded
 """C08  Weighted mean and its error equal the exact weighted statistics.  Engine RS + VL."""
 import terms as tm
 from terms import T, UINT, REAL, TRUE, FALSE, And, Not, Or, real
@@ -331,8 +332,8 @@ def run(tier, seed):
     check_wme_modular(pr, cr)
     obs = pr.obs
     import envelope
-    obs += envelope.guard_weighted("C08")
-    obs += vl.run_lemmas("C08", ["lemma_fold", "merge_tree", "concat"])
+    obs += guarded("C08.engine.envelope.guard_weighted@L334", lambda: envelope.guard_weighted("C08"))
+    obs += guarded("C08.engine.vl.run_lemmas@L335", lambda: vl.run_lemmas("C08", ["lemma_fold", "merge_tree", "concat"]))
     meta = {
         "level": "proof",
         "checker_cmd": "./check C08 (rsx -> RS executor -> sympy / z3 QF_NRA; verus history.rs)",
